@@ -53,6 +53,21 @@ const variantOf = (res) => (res.diagnostics?.[0] ? res.diagnostics[0].variant : 
 
 export const PROBES = [
   {
+    // seeded C09-i: typeof of a whole namespace - the module's own export shadows the same name passed on by export *
+    id: "own-export-shadows-export-star-in-typeof-namespace",
+    single: 'const lib = { kind: "lib", size: 1 } as const;\nexport const Parsers = parse.buildParsers<{ P: typeof lib }>();\n',
+    files: { "entry.ts": 'import * as lib from "./lib";\nexport const Parsers = parse.buildParsers<{ P: typeof lib }>();\n', "lib.ts": 'export const kind = "lib" as const;\nexport * from "./base";\n', "base.ts": 'export const kind = "base" as const;\nexport const size = 1 as const;\n' },
+    value: { $obj: "plain", fields: [["kind", "lib", 1], ["size", 1, 1]] },
+    alsoRejects: { $obj: "plain", fields: [["kind", "base", 1], ["size", 1, 1]] },
+  },
+  {
+    id: "earlier-export-star-shadows-a-later-one-in-typeof-namespace",
+    single: 'const lib = { kind: "one", size: 1, extra: true } as const;\nexport const Parsers = parse.buildParsers<{ P: typeof lib }>();\n',
+    files: { "entry.ts": 'import * as lib from "./lib";\nexport const Parsers = parse.buildParsers<{ P: typeof lib }>();\n', "lib.ts": 'export * from "./one";\nexport * from "./two";\n', "one.ts": 'export const kind = "one" as const;\nexport const size = 1 as const;\n', "two.ts": 'export const kind = "one" as const;\nexport const extra = true as const;\n' },
+    value: { $obj: "plain", fields: [["kind", "one", 1], ["size", 1, 1], ["extra", true, 1]] },
+    alsoRejects: { $obj: "plain", fields: [["kind", "two", 1], ["size", 1, 1], ["extra", true, 1]] },
+  },
+  {
     id: "export-list-exports-type-and-value",
     single: 'const A = { y: 1 } as const;\ntype A = { x: string };\nexport const Parsers = parse.buildParsers<{ P: { t: A; v: typeof A } }>();\n',
     files: { "entry.ts": 'import { A } from "./a";\nexport const Parsers = parse.buildParsers<{ P: { t: A; v: typeof A } }>();\n', "a.ts": 'const A = { y: 1 } as const;\ntype A = { x: string };\nexport { A };\n' },
